@@ -118,6 +118,10 @@ func (c C20) Run(t *tape.Tape, opt core.RunOpt) (res core.Result) {
 	w.ResolverEvents = t.Bool(1, 2)
 	w.BadEvents = t.Bool(1, 3)
 	w.ListEvents = t.Bool(1, 5)
+	if t.Bool(1, 4) {
+		w.ResolverReenters = 1 + t.Draw(2)
+		res.Count("probe_subscription_resolver_calls_the_registry", 1)
+	}
 	family := t.Draw(5)
 	nextSid, nextEv := 1, 1
 	newSub := func(topic string) *workload.SimSub {
@@ -126,7 +130,9 @@ func (c C20) Run(t *tape.Tape, opt core.RunOpt) (res core.Result) {
 		if t.Bool(1, 3) {
 			sb.FailFrom = 1 + t.Draw(2)
 			sb.Dropped = t.Bool(1, 2)
+			sb.TimeoutErr = t.Bool(1, 3)
 		}
+		sb.ByValue = t.Bool(1, 4)
 		w.AddSub(sb)
 		return sb
 	}
@@ -247,17 +253,28 @@ func (c C20) Run(t *tape.Tape, opt core.RunOpt) (res core.Result) {
 		}
 	}
 	// pre-registration happens before the run (hook inactive, sequential)
-	for _, sid := range pre {
-		r := ""
-		if preExe[sid] {
-			r = w.SubscribeExe(sharedExe, sharedOp, sid)
-		} else {
-			r = w.Subscribe(sid)
+	preFail := ""
+	if dl := sequentialSetup(s, func() {
+		for _, sid := range pre {
+			r := ""
+			if preExe[sid] {
+				r = w.SubscribeExe(sharedExe, sharedOp, sid)
+			} else {
+				r = w.Subscribe(sid)
+			}
+			if r != `{"data":null}` {
+				preFail = r
+				return
+			}
 		}
-		if r != `{"data":null}` {
-			res.Fatal = "pre-registration failed: " + r
-			return
-		}
+	}); dl != "" {
+		res.Evaluations = 1
+		res.Violate("C20", "deadlock", "a subscription request made before any other call (one goroutine): "+dl, nil)
+		return
+	}
+	if preFail != "" {
+		res.Fatal = "pre-registration failed: " + preFail
+		return
 	}
 	calls := make([][]*c20Call, len(plans))
 	var planStr []string
